@@ -25,6 +25,21 @@ def cases(tier):
             continue
         seen.add(text)
         yield fam, text, ast
+    # computed numbers at the boundaries of the number formatter: around 2^31, 2^32, 2^53, 2^63, 2^64, 10^21, and small fractions.
+    # (Literals and variables take other routes through the formatter than computed values do.)
+    import xpparse
+    for a in BIGNUMS:
+        for bb in BIGNUMS:
+            for op in ('*', 'div', '+', '-'):
+                for wrap in ('%s', '-(%s)') + (('round(%s)', '(%s) mod 7') if tier != 'quick' else ()):
+                    text = wrap % ('%s %s %s' % (a, op, bb))
+                    if text not in seen:
+                        seen.add(text)
+                        yield 'bignum', text, xpparse.parse_text(text)
+
+
+BIGNUMS = ['4294967296', '2147483648', '9007199254740992', '9223372036854775807', '9223372036854775808', '18446744073709551616',
+           '1000000000000000000000', '123456789012345678', '3', '0.5', '0.1', '0.000001']
 
 
 def top_op(ast):
